@@ -1078,9 +1078,15 @@ class Sem:
                 raise Unsupported("LIMIT modifiers")
             if isinstance(ex, exp.Literal) and not ex.is_string:
                 return int(ex.this)
+            if isinstance(ex, exp.Neg) and isinstance(ex.this, exp.Literal) and not ex.this.is_string and isinstance(node, exp.Limit):
+                return -int(ex.this.this)
             raise Unsupported("non-constant LIMIT/OFFSET")
 
         k = const_int(limit) if limit is not None else None
+        if k is not None and k < 0:
+            # SQLite: a negative LIMIT means no upper bound (the form sqlglot writes for an OFFSET without LIMIT);
+            # other engines reject it, which the engine-acceptance step reports before the semantics are compared
+            k = None
         off = const_int(offset) if offset is not None else 0
         n = len(out.rows)
 
